@@ -699,7 +699,7 @@ func (sc *scenario) traceLine(i int, seed uint64, storeBefore []map[string]inter
 	return vs.M{"kind": "sync", "ctl": "composite", "case": i, "seed": seed, "cfg": sc.Cfg, "key": sc.key, "revName": sc.revNameBefore,
 		"memoBefore": sc.memoBefore, "customizeCached": sc.custBefore, "customizeExpected": sc.custExpected,
 		"cache": cacheBefore, "storeBefore": storeBefore, "calls": calls, "storeAfter": w.sim.Snapshot(), "defs": w.sim.Defs(),
-		"result": vs.M{"outcome": outcome, "detail": detail, "queue": w.q.Ops},
+		"result":      vs.M{"outcome": outcome, "detail": detail, "queue": w.q.Ops},
 		"cacheIntact": vs.MustJSON(cacheBefore) == vs.MustJSON(cacheAfter)}
 }
 
